@@ -18,9 +18,10 @@ Open Scope Z_scope.
 
 (** H-live latency bound used when simulating: any value below (factor-1)*interval *)
 Definition sim_delta : Z := 2000000000.
-Definition cfg_repo (d : Z) : config :=
+Definition cfg_repo_eps (d e : Z) : config :=
   Config lock_freshness_interval file_lock_poll_interval lock_stale_factor (Z.to_nat lock_empty_retries)
-         lock_empty_sleep lock_empty_count_resets lock_hb_checks_created d.
+         lock_empty_sleep lock_empty_count_resets lock_hb_checks_created d e.
+Definition cfg_repo (d : Z) : config := cfg_repo_eps d 0.
 
 Record ev := Ev { etime : Z; ekind : Z; ea : Z; eb : Z }.   (* kind: 0 start(tid, pid) 1 unlock(tid) 2 kill(pid) 3 cancel(tid) *)
 Record ob := Ob { otid : Z; oout : Z; otime : Z }.          (* out: 0 acquired 1 ctx error 2 decode error 3 other -1 never returned *)
@@ -31,6 +32,7 @@ Record case := Case {
   chorizon : Z;
   ctol : Z;
   cjit : Z;
+  cgap : Z;            (* injected truncate -> write delay of the heartbeats (slow storage), else 0 *)
   cobs : list ob
 }.
 
@@ -44,8 +46,9 @@ Definition get_init : dec (option fcontent) :=
 Definition get_ev : dec ev := t <- get_z ;; k <- get_z ;; a <- get_z ;; b <- get_z ;; ret (Ev t k a b).
 Definition get_ob : dec ob := t <- get_z ;; o <- get_z ;; x <- get_z ;; ret (Ob t o x).
 Definition get_case : dec case :=
-  i <- get_init ;; es <- get_list get_ev ;; h <- get_z ;; tol <- get_z ;; j <- get_z ;; os <- get_list get_ob ;;
-  ret (Case i es h tol j os).
+  i <- get_init ;; es <- get_list get_ev ;; h <- get_z ;; tol <- get_z ;; j <- get_z ;; g <- get_z ;;
+  os <- get_list get_ob ;;
+  ret (Case i es h tol j g os).
 
 Definition sevent_of (e : ev) : sevent :=
   let a := Z.to_nat (ea e) in
@@ -59,7 +62,7 @@ Definition script_of (j : Z) (es : list ev) : list (Z * sevent) :=
   map (fun e => ((if (ekind e =? 1) || (ekind e =? 2) then Z.max 0 (etime e + j) else etime e), sevent_of e)) es.
 
 Definition model_outlog (c : case) (j : Z) : list (tid * Z * Z) :=
-  outlog (simulate (cfg_repo sim_delta) 4000 (chorizon c)
+  outlog (simulate (cfg_repo_eps sim_delta (cgap c)) 4000 (chorizon c)
                    (Sim (init_state (cinit c) (-1)) (script_of j (cevents c)) [] [] [])).
 
 Definition find_out (lg : list (tid * Z * Z)) (t : Z) : option (Z * Z) :=
